@@ -158,13 +158,37 @@ impl Arch {
 /// Full routine text for a linearized program, as the driver would write it to the `.asm` file.
 pub fn codegen(p: axcut::syntax::Prog, arch: Arch) -> Result<(String, usize), StageError> {
     let width = crate::tc_axcut::max_env_linear(&p);
+    let prints = has_print(&p);
     codegen_inner(p, arch).map_err(|e| match e {
+        // the RISC-V backend documents only `print` as not implemented
+        StageError::Panic { stage, msg } if arch == Arch::Rv && msg.contains("not implemented in RISC-V backend") && !prints => StageError::Panic {
+            stage,
+            msg: format!("the RISC-V backend refuses a print-free program: {}", msg.replace("not implemented", "not-implemented")),
+        },
         StageError::Panic { stage, msg } if is_capacity_panic(&msg) && width < capacity_margin(arch) => StageError::Panic {
             stage,
             msg: format!("{UNJUSTIFIED}: the program never has more than {width} live variables, yet {}: {msg}", arch.name()),
         },
         e => e,
     })
+}
+
+pub fn has_print(p: &axcut::syntax::Prog) -> bool {
+    use axcut::syntax::Statement as S;
+    fn go(s: &S) -> bool {
+        match s {
+            S::PrintI64(_) => true,
+            S::Substitute(x) => go(&x.next),
+            S::Let(x) => go(&x.next),
+            S::Literal(x) => go(&x.next),
+            S::Op(x) => go(&x.next),
+            S::Create(x) => go(&x.next) || x.clauses.iter().any(|c| go(&c.body)),
+            S::Switch(x) => x.clauses.iter().any(|c| go(&c.body)),
+            S::IfC(x) => go(&x.thenc) || go(&x.elsec),
+            S::Call(_) | S::Invoke(_) | S::Exit(_) => false,
+        }
+    }
+    p.defs.iter().any(|d| go(&d.body))
 }
 
 fn codegen_inner(p: axcut::syntax::Prog, arch: Arch) -> Result<(String, usize), StageError> {
